@@ -13,6 +13,10 @@ while IFS='|' read -r nn title b1 b2 b3; do
   if ! patch -p1 -s --no-backup-if-mismatch < "$f"; then echo "PATCHFAIL $nn"; git checkout -- . ; continue; fi
   if ! go build ./... 2>/tmp/ap.err; then echo "BUILDFAIL $nn"; head -5 /tmp/ap.err; git checkout -- .; continue; fi
   if go test -count=1 $pkgs 2>&1 | grep -E "^(FAIL|--- FAIL|panic)" | grep -v "html/layout\|html/document\|webrender/text\s" > /tmp/ap.fail; [ -s /tmp/ap.fail ]; then echo "TESTFAIL $nn"; head -5 /tmp/ap.fail; git checkout -- .; git clean -fdq; continue; fi
+  if [ -n "${LAYOUTTESTS:-}" ]; then
+    /verif/tools/layouttests.sh > /tmp/ap.lt 2>/dev/null
+    if ! diff -q /verif/tools/layouttests-baseline.txt /tmp/ap.lt >/dev/null; then echo "LAYOUTTESTS DIFFER $nn"; diff /verif/tools/layouttests-baseline.txt /tmp/ap.lt | head -6; git checkout -- .; git clean -fdq; continue; fi
+  fi
   git add -A; git commit -q -m "$title" -m "$b1
 $b2
 $b3" && echo "OK $nn $(git log --format=%h -1) $title"
